@@ -186,9 +186,15 @@ class Stack:
                 # box inside [0, ext-1] of a storage beneath (extents EXT); distinct per layer index
                 lo = [(idx + a) % 2 for a in range(k.n)]
                 hi = [min(EXT[a] - 1, lo[a] + 1 + (idx % 2)) for a in range(k.n)]
+                if is_real(k.in_t):
+                    # real-level boxes get non-integer bounds (a bound handled in an integer type becomes visible)
+                    lo = [x + 0.25 for x in lo]
+                    hi = [x + 0.5 for x in hi]
                 L.cfg = {"min": lo, "max": hi}
                 if kd == "backup":
-                    L.cfg["default"] = [-(100 + 10 * idx + j) for j in range(k.m)]
+                    # negative for floating outputs; integral outputs (identity<size1> beneath a storage order) get positive values,
+                    # a negative one would be converted to an unsigned type out of range in the reference interpreter
+                    L.cfg["default"] = [(-(100 + 10 * idx + j)) if is_real(k.out_t) else (100 + 10 * idx + j) for j in range(k.m)]
             elif kd == "affine":
                 # exact in binary: scale 1/2 or 1 or 2, translation multiples of 1/4; one shear entry; distinct per layer
                 n = k.n
